@@ -43,7 +43,7 @@ PROPS = {
         technique="Lean 4 proof (rest invariant by mutual structural induction; skeleton facts from source) + fault enumeration",
     ),
     "C14": dict(
-        text="Kernel-checked theorems about the model of the dim-string parser (total by construction: a value or ValueError): any two orderings of the same modifier characters parse identically unless one ends in '#'; '...' is '*_' in any position; leading / trailing / repeated whitespace only separates tokens; 'name=' prefixes are ignored; each documented illegal form is ValueError; concatenation law for nested annotations. On the real code: exhaustive over every token of <=4 modifier characters (all orders, with and without a 'd=' prefix at every position) x 5 bases, all sequences of <=2 tokens from a reduced set, random whitespace, non-string specifications, an exotic/Unicode totality stream; exception class and acceptance vectors compared with the model and within each order family.",
+        text="Kernel-checked theorems about the model of the dim-string parser (total by construction: a value or ValueError): any two orderings of the same modifier characters parse identically unless one ends in '#'; '...' is '*_' in any position; leading / trailing / repeated whitespace only separates tokens; 'name=' prefixes are ignored; each documented illegal form is ValueError; concatenation law for nested annotations. On the real code: exhaustive over every token of <=4 modifier characters (all orders, with and without a 'd=' prefix at every position) x 5 bases, all sequences of <=2 tokens from a reduced set, random whitespace, non-string specifications, an exotic/Unicode totality stream; exception class and acceptance vectors compared with the model and within each order family. The body of the parsing loop of _make_array_cached is TRANSLATED statement by statement from the current source on every run (harness/translate.py -> Generated/ParserCode.lean, a small imperative language with if / while True / break / try-int / raise, Model/ParserDsl.lean) and proved, for every token, position and state of index_variadic, to compute exactly the model's parseTok step (same axis, same index, ValueError in the same cases, never another error): C14_source_loop_body, C14_source_parser, and for whole strings C14_source_spec - so the theorems above are statements about the code the source contains.",
         note="ASCII model; '*', '?' or 'x=' with an empty base, signed/underscored integers and symbolic garbage are the §6 zones (model mirrors the code, no claim).",
         technique="Lean 4 proof (permutation invariance of modifier stripping, whitespace splitting) + exhaustive token enumeration",
     ),
